@@ -143,6 +143,17 @@ impl WakerHandle {
     pub fn queued(&self) -> usize {
         self.0.guard().len()
     }
+    /// take every queued interest out of the queue: `WorkerAvailable(idx)` as `Some(idx)`, any other kind as `None`
+    pub fn drain(&self) -> Vec<Option<usize>> {
+        self.0
+            .guard()
+            .drain(..)
+            .map(|i| match i {
+                WakerInterest::WorkerAvailable(idx) => Some(idx),
+                _ => None,
+            })
+            .collect()
+    }
 }
 
 /// What one iteration saw.
